@@ -7,7 +7,8 @@ EXPLANATION = ("Order rules on the solve root: the multipliers are captured exac
                "call on every path, the residual is written from that capture only and the reconstruction reads stored multipliers only (R-ORDER); dual "
                "mode returns the reconstructed constant, primal mode the solver value (R-RET); both back-ends add `objective >= optimum - tolerance`, "
                "untracked, then minimise a linear function of the Gram matrix over the stored constraints (R-HEUR); heuristic names are dispatched by a "
-               "closed chain (R-OPTIONS).")
+               "closed chain (R-OPTIONS)."
+               " Also: the published Gram matrix / function values are the solver's last solution (never an eigenvalue-thresholded matrix), the heuristic receives the first optimum, the user's tolerance, the identity ('trace') or the regularised inverse ('logdet').")
 TRUSTED = ["CPython ast"]
 ASSUMPTIONS = ["'trace does not increase', 'within tolerance' and feasibility of the returned instance are numeric facts, not decided"]
 
